@@ -28,6 +28,16 @@ THEOREMS = [
     "C10_unlocked_after",
     "C10_failure_settles",
     "C10_pinned_lock_lost_witness",
+    "C10_frozen_routes",
+    "C10_frozen_entry",
+    "C10_lock_at_entry_only_witness",
+    "C10_route_refused_example",
+    "C10_delivered_at_depth_example",
+    "C10_executors_untouched",
+    "C10_live_pool_accepts",
+    "C10_running_has_job",
+    "C10_refused_submission_witness",
+    "C10_shutdown_built_witness",
 ]
 RULE = (
     "seeded random graphs (function nodes, macros nested to depth 3, workflows; 1-4 children per level, random data "
@@ -299,13 +309,102 @@ def gen_cases(rng, tier):
         allc = list(itertools.product(["n", "is", "iv", "xv"], repeat=4))
         for combo in rng.sample(allc, 40):
             yield _small_scope(combo, rng.randrange(2))
+    # nodes out at any depth, attacked through every route by which a value reaches an input channel
+    for _ in range(90 if tier == "quick" else 2500):
+        c = _gen_route(rng)
+        if c is not None:
+            yield c
+    # executor objects: live / instructions with every sharing pattern, repeated submissions, any completion order
+    for _ in range(40 if tier == "quick" else 600):
+        yield _gen_pools(rng)
     # real pools
     n_real = 14 if tier == "quick" else 60
     for i in range(n_real):
         yield _gen_real(rng, i)
     # a malformed stream: the driver must answer bad-op, never guess
-    yield {"kind": "malformed", "lines": ["cfg 0 0", "fn 3 zz 0 1 - -", "comp what n 0 0 0", "top", "run",
+    yield {"kind": "malformed", "lines": ["cfg 0 0 1", "fn 3 zz 0 1 - -", "comp what n 0 0 0", "top", "run",
                                           "set x y", "submit 7", "frobnicate"]}
+
+
+ROUTES = ["value", "panel", "siv", "copy", "fetch", "kw", "wfpanel"]
+
+
+def _gen_route(rng):
+    """a graph run once locally, then one inner node (any depth) re-run on its own with an executor and, while it
+    is out, setter calls entering at the node itself, at every ancestor, at unrelated nodes — through every route"""
+    root = _gen_root(rng)
+    if root["t"] == "fn":
+        root = {"t": "macro", "x": _const(rng), "y": _const(rng), "exe": "n", "level": _gen_level(rng, 1, True)}
+    root["exe"] = "n"
+    inner = [p for p, _nd in walk(root) if p != ()]
+    if not inner:
+        return None
+    deep = [p for p in inner if len(p) >= 2]
+    target = rng.choice(deep if deep and rng.random() < 0.6 else inner)
+    spec = dict(walk(root))
+    if spec[target]["exe"] == "n":
+        spec[target]["exe"] = rng.choice(["is", "iv", "xs", "xv"])
+    ops = [["run"], ["submitat", list(target)]]
+
+    def attack(out):
+        r = rng.random()
+        if r < 0.35:
+            entry = target
+        elif r < 0.75 and len(target) > 1:
+            entry = target[:rng.randrange(1, len(target))] if len(target) > 1 else target
+        elif r < 0.85 and root["t"] == "macro":
+            entry = ()
+        else:
+            entry = rng.choice(inner)
+        nd = spec[entry] if entry != () else root
+        if nd["t"] == "wf":
+            return None
+        k = rng.randrange(nslots(nd))
+        route = rng.choice(ROUTES)
+        if route == "kw" and not (out and entry == target):
+            route = "value"
+        if route == "wfpanel" and not (root["t"] == "wf" and len(entry) == 1 and
+                                       not any(d == entry[0] and sl == k for d, sl, _ in root["level"]["edges"])):
+            route = "siv"
+        return ["setat", list(entry), k, rng.choice(["c5", "c6", "c7"]), route]
+
+    for _ in range(rng.randint(2, 6)):
+        a = attack(True)
+        if a:
+            ops.append(a)
+    ops.append(["completeat", list(target)])
+    for _ in range(rng.randint(0, 2)):
+        a = attack(False)
+        if a:
+            ops.append(a)
+    if rng.random() < 0.3:
+        ops.append(["run"])
+    return {"kind": "tree", "root": root, "fails": [], "snap": rng.randrange(2),
+            "pickler": rng.choice(["pickle", "cloudpickle"]),
+            "sched": [rng.randrange(4) for _ in range(rng.randint(0, 8))], "ops": ops}
+
+
+def _gen_pools(rng):
+    pools = [rng.choice(["live", "live", "live", "down"]) for _ in range(rng.randint(1, 3))]
+    n_pools = len(pools)  # inst / shared name pools that exist from the start
+    ops, outstanding = [], 0
+    for _ in range(rng.randint(2, 9)):
+        if outstanding and rng.random() < 0.45:
+            ops.append(["complete", rng.randrange(outstanding)])
+            outstanding -= 1  # upper bound; the model answers noJob if it was fewer
+            continue
+        r = rng.random()
+        if r < 0.3:
+            st = ["inst", rng.randrange(n_pools)]
+        elif r < 0.65:
+            st = ["shared", rng.randrange(n_pools)]
+        elif r < 0.92:
+            st = ["fresh"]
+        else:
+            st = ["freshdown"]
+        ops.append(["submit", rng.randrange(3), st])
+        outstanding += 1
+    return {"kind": "pools", "pools": pools, "ops": ops}
 
 
 def _small_scope(combo, snap):
@@ -396,7 +495,25 @@ def corpus():
     yield dict(base, root=m2("is", "c1", "c2"),
                ops=[["submit"], ["set", 0, "c7"], ["connect", 1, "c8"], ["fetch"], ["disconnect", 1], ["rerun"],
                     ["complete"], ["set", 1, "c5"], ["submit"], ["complete"]])
+    # the lock on every route: grandchild out, attacked from the root input, the parent input, directly, elsewhere
+    mo2 = {"t": "macro", "x": "c1", "y": "d", "exe": "n",
+           "level": {"nodes": [m2("n", "d", "c7")], "edges": [], "xin": [[0, 0, "x"], [0, 1, "y"]], "out": 0}}
+    mo2 = _copy.deepcopy(mo2)
+    mo2["level"]["nodes"][0]["level"]["nodes"][0]["exe"] = "iv"
+    yield dict(base, root=mo2, ops=[["run"], ["submitat", [0, 0]]] +
+               [["setat", e, k, "c9", r] for e, k, r in (([], 0, "value"), ([0], 0, "siv"), ([0], 1, "panel"),
+                                                         ([0, 0], 1, "value"), ([0, 0], 0, "copy"),
+                                                         ([0, 0], 2, "fetch"), ([0, 0], 1, "kw"), ([0, 1], 2, "value"))] +
+               [["completeat", [0, 0]], ["setat", [], 0, "c8", "value"], ["run"]])
+    # executor instructions that hand out one shared pool; a pool that is shut down (submission refused)
+    yield {"kind": "pools", "pools": ["live"], "ops": [["submit", 0, ["shared", 0]], ["complete", 0],
+                                                         ["submit", 1, ["shared", 0]], ["submit", 0, ["shared", 0]],
+                                                         ["complete", 1], ["complete", 0]]}
+    yield {"kind": "pools", "pools": ["down", "live"], "ops": [["submit", 0, ["inst", 0]], ["submit", 1, ["freshdown"]],
+                                                                ["submit", 2, ["fresh"]], ["complete", 0]]}
     # D3: for-node child of a workflow by value; P7: macro with an unused argument by value
+    yield {"kind": "extconn", "mode": "iv"}
+    yield {"kind": "extconn", "mode": "is"}
     yield {"kind": "for", "mode": "iv"}
     yield {"kind": "for", "mode": "is"}
     yield {"kind": "unused", "mode": "iv"}
@@ -661,6 +778,55 @@ def _variant():
         v = [int(keep_io), int(drop_det), int(keep_exe)]
     except BaseException:  # noqa: BLE001
         v = [0, 0, 0]
+    # is the lock consulted by the setter a value arrives at through a value link?
+    try:
+        nodes.reset()
+        nc.reset()
+        mm = _build({"t": "macro", "x": "c1", "y": "c2", "exe": "n",
+                     "level": {"nodes": [fn(1, ["d", "d", "d"])], "edges": [],
+                               "xin": [[0, 0, "x"], [0, 1, "y"]], "out": 0}}, "top", "", False, env)
+        kid = mm.children["n0"]
+        kid.running = True
+        try:
+            mm.inputs.x.value = "c3"
+            at_recv = 0
+        except RuntimeError:
+            at_recv = 1
+        kid.running = False
+    except BaseException:  # noqa: BLE001
+        at_recv = 1
+    v.append(at_recv)
+    # executor handles: is a pool obtained from instructions shut down after the job? does a refused
+    # submission settle the node?
+    try:
+        from concurrent.futures import ThreadPoolExecutor
+
+        nc.reset()
+        pool = ThreadPoolExecutor(1)
+        nc.POOLS.append(pool)
+        n1 = nodes.term_node(1, label="p1")
+        n1.use_cache = False
+        n1.executor = (nc.pool_factory, ("shared", 0), {})
+        n1.run().result(60)
+        import time as _t
+
+        t0 = _t.time()
+        while n1.running and _t.time() - t0 < 30:
+            _t.sleep(0.002)
+        _t.sleep(0.02)
+        shut = int(bool(pool._shutdown))
+        pool.shutdown()
+        n2 = nodes.term_node(2, label="p2")
+        n2.use_cache = False
+        n2.executor = pool
+        try:
+            n2.run()
+        except BaseException:  # noqa: BLE001
+            pass
+        settle = int(not n2.running)
+        v += [shut, settle]
+    except BaseException:  # noqa: BLE001
+        v += [0, 0]
     nodes.reset()
     nc.reset()
     _CACHE["variant"] = v
@@ -705,6 +871,10 @@ def run_impl(case):
         return _run_for(case)
     if case["kind"] == "unused":
         return _run_unused(case)
+    if case["kind"] == "pools":
+        return _run_pools(case)
+    if case["kind"] == "extconn":
+        return _run_extconn(case)
     return {"obs": [], "stats": {"malformed": 1}}
 
 
@@ -762,6 +932,7 @@ def _run_tree(case):
     rows, obs = [], []
     twin_note = []
     excs: list = []
+    routed = False
 
     def dump(t):
         lines: list = []
@@ -776,6 +947,62 @@ def _run_tree(case):
 
     def in_label(t, k):
         return _own_inputs(t)[k].label
+
+    def real_at(t, spec_path):
+        n = t
+        for i in spec_path:
+            n = n.children[f"n{i}"]
+        return n
+
+    def set_at(t, spec_path, k, v, route):
+        """one setter call entering at the node at `spec_path`, through the given python route"""
+        from pyiron_workflow.channels import NOT_DATA
+
+        n = real_at(t, spec_path)
+        ch = _own_inputs(n)[k]
+        try:
+            if route == "value":
+                ch.value = v
+            elif route == "panel":
+                setattr(n.inputs, ch.label, v)
+            elif route == "siv":
+                n.set_input_values(**{ch.label: v})
+            elif route == "kw":
+                n.run(**{ch.label: v})
+            elif route == "wfpanel":
+                t.inputs[f"{n.label}__{ch.label}"].value = v
+            elif route == "copy":
+                donor = type(n)(label="donor") if _kind(n) != "macro" else None
+                if donor is None:
+                    nc.SPEC_QUEUE.insert(0, {"nodes": [{"t": "fn", "fid": 1, "ins": ["d", "d", "d"]}], "edges": [],
+                                              "xin": [[0, 0, "x"], [0, 1, "y"]], "out": 0})
+                    donor = nc.Mac(label="donor")
+                for c in donor.inputs:
+                    c.value = NOT_DATA
+                donor.inputs[ch.label].value = v
+                n._copy_values(donor, fail_hard=True)
+            elif route == "fetch":
+                if ch.connections:
+                    ch.value = v  # the channel is wired already: plain assignment instead
+                else:
+                    src = UserInput(label="src")
+                    src.inputs.user_input.value = v
+                    src.run()
+                    ch.connect(src.outputs.user_input)
+                    try:
+                        ch.fetch()
+                    finally:
+                        ch.disconnect_all()
+            return "ok"
+        except ReadinessError:
+            return "readiness"
+        except Exception as e:  # noqa: BLE001
+            x = e
+            while x is not None:
+                if isinstance(x, RuntimeError) and "locked" in str(x):
+                    return "locked"
+                x = x.__cause__ or x.__context__
+            return f"exc:{type(e).__name__}"
 
     def do_run(t, instrumented):
         if instrumented and not real:
@@ -843,6 +1070,29 @@ def _run_tree(case):
             if kind == "fetch":
                 t.inputs.fetch()
                 return "ok"
+            if kind == "submitat":
+                n = real_at(t, op[1])
+                r = None
+                if is_twin:
+                    return "future"
+                with Instrument(sched):
+                    r = n.run(fetch_input=False, emit_ran_signal=False)
+                from concurrent.futures import Future
+
+                return "future" if isinstance(r, Future) else "ok"
+            if kind == "completeat":
+                if is_twin:
+                    return "ok"
+                n = real_at(t, op[1])
+                job = next((j for j in sched.jobs if j[0] is n), None)
+                if job is None:
+                    return "notOut"
+                sched.jobs.remove(job)
+                with Instrument(sched):
+                    _run_job(job)
+                return "ok"
+            if kind == "setat":
+                return set_at(t, op[1], op[2], op[3], op[4])
             if kind == "connect":
                 src = UserInput(label="src")
                 if op[2] != "nd":
@@ -885,7 +1135,11 @@ def _run_tree(case):
                 del excs[:]
                 res = apply(top, op, False)
                 exc = excs[0] if excs else None
-                if not real and not state["out"]:
+                if op[0] == "submitat" and res == "future":
+                    state["inner"] = state.get("inner", 0) + 1
+                elif op[0] == "completeat" and res == "ok":
+                    state["inner"] = max(0, state.get("inner", 0) - 1)
+                if not real and not state["out"] and not state.get("inner"):
                     # whatever is still outstanding after the root returned (late completions)
                     try:
                         with Instrument(sched):
@@ -896,7 +1150,9 @@ def _run_tree(case):
                         twin_note.append(f"late:{late}")
                 # the twin: the same graph without any executor, given only what the property allows
                 tres = None
-                if op[0] == "run":
+                if routed:
+                    pass  # the twin's history ends where an inner node is put out on its own
+                elif op[0] == "run":
                     tres = apply(twin, op, True)
                 elif op[0] == "submit":
                     tres = apply(twin, op, True) if res == "future" else None
@@ -906,6 +1162,8 @@ def _run_tree(case):
                     tres = apply(twin, op, True) if not was_out else None
                 elif op[0] in ("connect", "disconnect"):
                     tres = apply(twin, op, True)
+                elif op[0] in ("submitat", "completeat", "setat"):
+                    routed = True
                 d = dump(top)
                 obs += [f"res {res}"] + d + [ext_line(top, ext, state["out"]), "end"]
                 rows.append({"op": op, "res": res, "dump": d, "twin": dump(twin), "out": was_out,
@@ -1035,9 +1293,186 @@ def _run_unused(case):
             "callback_errors": cb.records, "stats": {"unused_cases": 1}}
 
 
+def _run_extconn(case):
+    """a workflow that runs on an executor while its children are connected to nodes OUTSIDE it (2c1f321):
+    those connections do not travel with a copy and must be back, mutual and in place, afterwards"""
+    from pyiron_workflow import Workflow
+
+    from . import nodes, nodes_c10 as nc
+    from .execsim import Instrument, Scheduler, _run_job, term_str
+
+    nodes.reset()
+    nc.reset()
+    CtlExe = _mk_exe_class()
+    sched = Scheduler([])
+
+    def build(exe):
+        up = nodes.F7(label="up", a="c1")
+        up.use_cache = False
+        up.run()
+        up2 = nodes.F8(label="up2", a="c2")
+        up2.use_cache = False
+        up2.run()
+        # data connections to the outside are only allowed with a hand-made execution flow
+        wf = Workflow("w", autoload=None, automate_execution=False)
+        wf.a = nodes.F1(a="c3")
+        wf.b = nodes.F2(a=wf.a)
+        wf.a >> wf.b
+        wf.starting_nodes = [wf.a]
+        wf.a.inputs.b.connect(up.outputs.o)
+        wf.b.inputs.b.connect(up.outputs.o)
+        wf.b.inputs.b.connect(up2.outputs.o)  # two connections: priority order matters
+        down = nodes.F9(label="down")
+        down.use_cache = False
+        down.inputs.a.connect(wf.b.outputs.o)
+        wf.b.signals.output.ran >> down.signals.input.run
+        _no_cache(wf)
+        if exe:
+            wf.executor = CtlExe(sched, case["mode"] == "iv", True, "pickle", [])
+        return wf, up, up2, down
+
+    def view(wf, up, up2, down):
+        def ends(ch):
+            return [f"{c.owner.label}.{c.label}:{int(any(x is ch for x in c.connections))}" for c in ch.connections]
+
+        return {"a.b": ends(wf.a.inputs.b), "b.b": ends(wf.b.inputs.b), "b.o": ends(wf.b.outputs.o),
+                "b.ran": ends(wf.b.signals.output.ran), "up.o": sorted(ends(up.outputs.o)),
+                "up2.o": ends(up2.outputs.o), "down.a": ends(down.inputs.a),
+                "down.run": ends(down.signals.input.run),
+                "owners": all(c.owner in (wf.a, wf.b) for ch in (up.outputs.o, up2.outputs.o) for c in ch.connections)
+                and all(c.owner is wf.b for c in down.inputs.a.connections),
+                "outs": {k: term_str(v) for k, v in wf.outputs.to_value_dict().items()},
+                "kids": {c.label: term_str(c.outputs.o.value) for c in wf},
+                "down": term_str(down.outputs.o.value), "running": [c.label for c in wf if c.running] + (
+                    ["w"] if wf.running else [])}
+
+    res = "ok"
+    top, up, up2, down = build(True)
+    with _CallbackLog() as cb:
+        try:
+            with Instrument(sched):
+                top.run()
+                while sched.jobs:
+                    _run_job(sched.jobs.pop(0))
+        except Exception as e:  # noqa: BLE001
+            res = f"exc:{type(e).__name__}"
+    twin = build(False)
+    twin[0].run()
+    return {"obs": [], "ext": {"res": res, "impl": view(top, up, up2, down), "twin": view(*twin)},
+            "callback_errors": cb.records, "stats": {"extconn_cases": 1}}
+
+
+def _run_pools(case):
+    """executor objects with identity: live ones and instruction-built ones (fresh / shared / already shut down),
+    repeated submissions, completions in any order — on real ThreadPoolExecutors, jobs held out by file gates"""
+    import os
+    import tempfile
+    import threading
+    from concurrent.futures import Future, ThreadPoolExecutor
+
+    from pyiron_workflow.mixin.run import ReadinessError
+
+    from . import nodes, nodes_c10 as nc
+
+    variant = _variant()
+    nodes.reset()
+    nc.reset()
+    d = tempfile.mkdtemp(dir=os.getcwd())
+    for st in case["pools"]:
+        e = ThreadPoolExecutor(3)
+        if st == "down":
+            e.shutdown()
+        nc.POOLS.append(e)
+    initial = len(nc.POOLS)
+    ns, gates, runs = [], [], [0, 0, 0]
+    for i in range(3):
+        g = os.path.join(d, f"gate{i}")
+        gates.append(g)
+        n = nc.Gated(label=f"g{i}", a=f"c{i + 1}", b="d", c="g:" + g)
+        n.use_cache = False
+        ns.append(n)
+    jobs: list = []  # (node index, done event)
+    obs, rows = [], []
+
+    def pstate():
+        pools = ",".join("down" if e._shutdown else "live" for e in nc.POOLS) or "."
+        flags = ",".join(f"{i}:{int(bool(n.running))}{int(bool(n.failed))}{runs[i]}" for i, n in enumerate(ns))
+        return f"pstate pools={pools} nodes={flags} jobs={len(jobs)}"
+
+    obs.append(pstate())
+    with _CallbackLog() as cb:
+        try:
+            for op in case["ops"]:
+                if op[0] == "submit":
+                    i, st = op[1], op[2]
+                    n = ns[i]
+                    if st[0] == "inst":
+                        n.executor = nc.POOLS[st[1]]
+                    elif st[0] == "shared":
+                        n.executor = (nc.pool_factory, ("shared", st[1]), {})
+                    else:
+                        n.executor = (nc.pool_factory, (st[0], None), {})
+                    if os.path.exists(gates[i]):
+                        os.remove(gates[i])
+                    try:
+                        r = n.run()
+                        if isinstance(r, Future):
+                            ev = threading.Event()
+                            r.add_done_callback(lambda _f, ev=ev: ev.set())
+                            jobs.append((i, ev))
+                            res = "future"
+                        else:
+                            res = "ok"
+                    except ReadinessError:
+                        res = "notReady"
+                    except RuntimeError as e:
+                        res = "refused" if "cannot schedule" in str(e) else f"exc:{type(e).__name__}"
+                    except Exception as e:  # noqa: BLE001
+                        res = f"exc:{type(e).__name__}"
+                else:
+                    if op[1] >= len(jobs):
+                        res = "noJob"
+                    else:
+                        i, ev = jobs.pop(op[1])
+                        open(gates[i], "w").close()
+                        if ev.wait(100):
+                            runs[i] += 1
+                            res = "ok"
+                        else:
+                            res = "hang"
+                obs += [f"pres {res}", pstate()]
+                rows.append({"op": op, "res": res, "pools": ["down" if e._shutdown else "live" for e in nc.POOLS],
+                             "running": [bool(n.running) for n in ns], "failed": [bool(n.failed) for n in ns],
+                             "jobs": len(jobs),
+                             "outs": [n.outputs.o.value if not isinstance(n.outputs.o.value, type(None)) else None
+                                      for n in ns]})
+        finally:
+            for g in gates:
+                if not os.path.exists(g):
+                    open(g, "w").close()
+            for _i, ev in jobs:
+                ev.wait(30)
+            for e in nc.POOLS:
+                try:
+                    e.shutdown(wait=True, cancel_futures=True)
+                except Exception:  # noqa: BLE001
+                    pass
+    for r in rows:
+        r["outs"] = [enc(v) for v in r["outs"]]
+    stats = {"pool_cases": 1}
+    for r in rows:
+        stats[f"pres:{r['res'].split(':')[0]}"] = stats.get(f"pres:{r['res'].split(':')[0]}", 0) + 1
+        if r["op"][0] == "submit":
+            stats[f"pset:{r['op'][2][0]}"] = stats.get(f"pset:{r['op'][2][0]}", 0) + 1
+    return {"obs": obs, "rows": rows, "initial": initial, "variant": variant, "callback_errors": cb.records,
+            "stats": stats}
+
+
 def nontrivial(case, r):
+    if case["kind"] == "pools":
+        return any(row["res"] == "future" for row in r.get("rows", []))
     if case["kind"] != "tree":
-        return case["kind"] in ("for", "unused")
+        return case["kind"] in ("for", "unused", "extconn")
     return bool(r.get("pokes")) or any(row["res"] == "future" for row in r.get("rows", []))
 
 
@@ -1081,10 +1516,19 @@ def _emit(spec, lnk, refs, lines, val_override=None):
 def model_input(case, impl=None):
     if case["kind"] == "malformed":
         return list(case["lines"])
+    if case["kind"] == "pools":
+        variant = impl.get("variant", [0, 0, 0, 1, 0, 0]) if impl else [0, 0, 0, 1, 0, 0]
+        lines = [f"pcfg {variant[4]} {variant[5]}", "pools " + " ".join(case["pools"])]
+        for op in case["ops"]:
+            if op[0] == "submit":
+                lines.append(f"psubmit {op[1]} " + " ".join(map(str, op[2])))
+            else:
+                lines.append(f"pcomplete {op[1]}")
+        return lines
     if case["kind"] != "tree":
         return []
-    variant = impl.get("variant", [0, 0, 0]) if impl else [0, 0, 0]
-    lines = ["cfg " + " ".join(map(str, variant))]
+    variant = impl.get("variant", [0, 0, 0, 1, 0, 0]) if impl else [0, 0, 0, 1, 0, 0]
+    lines = ["cfg " + " ".join(map(str, variant[:4]))]
     if case["fails"]:
         lines.append("fails " + " ".join(map(str, case["fails"])))
     root = case["root"]
@@ -1104,9 +1548,25 @@ def model_input(case, impl=None):
             lines.append(f"connect {op[1]} {'-' if op[2] == 'nd' else show(enc_spec(op[2]))}")
         elif k == "disconnect":
             lines.append(f"disconnect {op[1]}")
+        elif k == "submitat":
+            lines.append(f"submitat {_mpath(case, op[1])} {snap}")
+        elif k == "completeat":
+            lines.append(f"completeat {_mpath(case, op[1])}")
+        elif k == "setat":
+            lines.append(f"setat {_mpath(case, op[1])} {op[2]} {show(enc_spec(op[3]))}")
         else:
             lines.append(k)
     return lines
+
+
+def _mpath(case, spec_path):
+    """spec index path -> positions in the model (UserInput children in front), `r` for the root"""
+    spec, out = case["root"], []
+    for i in spec_path:
+        _ui, sh, _l = layout(spec)
+        out.append(sh + i)
+        spec = spec["level"]["nodes"][i]
+    return ".".join(map(str, out)) if out else "r"
 
 
 def _blocks(lines):
@@ -1125,6 +1585,14 @@ def diff(case, impl, model):
     if case["kind"] == "malformed":
         bad = [l for l in model if l != "bad-op"]
         return {"index": 0, "impl": "bad-op x8", "model": bad[:3]} if bad or len(model) != len(case["lines"]) else None
+    if case["kind"] == "pools":
+        a, b = list(impl["obs"]), list(model)
+        if a == b:
+            return None
+        for i, (x, y) in enumerate(zip(a, b)):
+            if x != y:
+                return {"index": i, "impl": x, "model": y}
+        return {"index": min(len(a), len(b)), "impl": f"<{len(a)} lines>", "model": f"<{len(b)} lines>"}
     if case["kind"] != "tree":
         return None
     ib, mb = _blocks(impl["obs"]), _blocks(model)
@@ -1215,6 +1683,25 @@ def oracle(case, r):
         return []
     if case["kind"] == "for":
         return _oracle_for(case, r)
+    if case["kind"] == "pools":
+        return _oracle_pools(case, r)
+    if case["kind"] == "extconn":
+        e = r["ext"]
+        i, t = e["impl"], e["twin"]
+        out = []
+        # (whether a node OUTSIDE the workflow is triggered by a child's signal is not an output of the workflow:
+        #  a by-value run does not fire it, noted in design.d, not demanded here)
+        if e["res"] != "ok" or i["outs"] != t["outs"] or i["kids"] != t["kids"]:
+            out.append(_fail("same-outputs", f"workflow with outside connections on {case['mode']}: {e['res']}, "
+                             f"{i['outs']} down={i['down']} vs local {t['outs']} down={t['down']}", kind="extconn"))
+        keys = ("a.b", "b.b", "b.o", "b.ran", "up.o", "up2.o", "down.a", "down.run")
+        if any(i[k] != t[k] for k in keys) or not i["owners"]:
+            out.append(_fail("keeps", "connections of the children to nodes outside the workflow: " +
+                             "; ".join(f"{k}: {i[k]} (local {t[k]})" for k in keys if i[k] != t[k]) +
+                             f"; ends owned by the live children: {i['owners']}", kind="extconn"))
+        if i["running"]:
+            out.append(_fail("nothing-running", f"{i['running']}", kind="extconn"))
+        return out
     if case["kind"] == "unused":
         u = r["unused"]
         if u["res"] != "ok" or u["impl"] != u["twin"] or u["failed"] or u["running"]:
@@ -1302,6 +1789,36 @@ def oracle(case, r):
                               f"{tw['0']['f']}", cause=_cause(case, merged)))
             if has_bv_comp:
                 merged = True
+    # ---- nodes out at any depth: between `submitat P` and `completeat P` the inputs shown at P never change,
+    #      whatever route a value takes; afterwards the output is the function of the inputs shown
+    out_at = {}
+    for k, row in enumerate(rows[1:], 1):
+        op, res = row["op"], row["res"]
+        cur = {d["path"]: d for d in map(_parse, row["dump"])}
+        if op[0] == "submitat" and res == "future":
+            mp = "0" if not op[1] else "0." + _mpath(case, op[1])
+            out_at[mp] = cur[mp]["i"]
+        elif op[0] == "completeat" and res == "ok":
+            mp = "0" if not op[1] else "0." + _mpath(case, op[1])
+            held = out_at.pop(mp, None)
+            d = cur[mp]
+            if d["kind"].startswith("fn") and held is not None and d["f"] == "0":
+                fid = int(d["kind"][2:])
+                want = ".".join([str(fid + 1)] + [x for x in d["i"].split(";")] + ["0"])
+                if d["o"] != want:
+                    add(_fail("frozen", f"op #{k} {op}: {mp} shows inputs {d['i']} next to output {d['o']}",
+                              op="delivered", top=top_kind, after_merge=False))
+            if d["r"] == "1":
+                add(_fail("nothing-running", f"op #{k} {op}: {mp} still running", where="at-depth", after_merge=False))
+        elif op[0] == "setat":
+            for mp, held in out_at.items():
+                if cur[mp]["i"] != held:
+                    add(_fail("frozen", f"op #{k} {op} (route {op[4]}): the node out at {mp} shows {cur[mp]['i']} "
+                              f"instead of {held} (result {res})", op="route", top=top_kind, after_merge=False))
+                    out_at[mp] = cur[mp]["i"]
+            if not out_at and res not in ("ok",):
+                add(_fail("unlocked-after", f"op #{k} {op}: nothing is out but the assignment answered {res}",
+                          op="setat", top=top_kind, after_merge=False))
     # ---- every node that was out refused the assignment of its inputs
     bad = [p for p in r["pokes"] if p[3] != "refused"]
     if bad:
@@ -1314,6 +1831,61 @@ def oracle(case, r):
         add(_fail("nothing-running", f"jobs outstanding after the root returned: {r['notes']}", where="late",
                   after_merge=_poke_after_merge(case)))
     return fails
+
+
+def _oracle_pools(case, r):
+    """executors the run did not create keep their state; a live pool takes every submission of an idle node;
+    the result is the function of the inputs; when every job is back nothing is running"""
+    out = []
+    seen = set()
+
+    def add(f):
+        key = json.dumps(f["signature"], sort_keys=True)
+        if key not in seen:
+            seen.add(key)
+            out.append(f)
+
+    prev_pools = list(case["pools"])
+    busy = [False, False, False]
+    failed = [False, False, False]
+    for k, row in enumerate(r["rows"]):
+        op, res = row["op"], row["res"]
+        for h, (a, b) in enumerate(zip(prev_pools, row["pools"])):
+            if a == "live" and b == "down":
+                add(_fail("executor-kept", f"op #{k} {op}: pool {h} was shut down by the run", pool="pre-existing"
+                          if h < r["initial"] else "built", trigger=op[0]))
+        if op[0] == "submit":
+            i, st = op[1], op[2]
+            if not busy[i] and not failed[i]:
+                target_live = (st[0] == "fresh") or (st[0] in ("inst", "shared") and st[1] < len(prev_pools)
+                                                     and prev_pools[st[1]] == "live")
+                if target_live and res != "future":
+                    add(_fail("same-outputs", f"op #{k} {op}: an idle node submitted to a live pool: {res}",
+                              cause="live-pool-refuses", setting=st[0]))
+                if res == "future":
+                    busy[i] = True
+                elif res == "refused":
+                    if row["running"][i]:
+                        add(_fail("nothing-running", f"op #{k} {op}: the executor refused the submission and the node "
+                                  f"is left running with nothing out", cause="refused-submit"))
+                    failed[i] = row["failed"][i]
+                    busy[i] = row["running"][i]
+        elif res == "ok":
+            done = [i for i in range(3) if busy[i] and not row["running"][i]]
+            for i in done:
+                busy[i] = False
+                want = [41] + enc(f"c{i + 1}") + enc("d") + [999, 0, 0]
+                if row["outs"][i] != want:
+                    add(_fail("same-outputs", f"op #{k} {op}: node {i} delivered {row['outs'][i]}, locally {want}",
+                              cause="pool-output"))
+        elif res == "hang":
+            add(_fail("nothing-running", f"op #{k} {op}: the job never came back", cause="hang"))
+        prev_pools = list(row["pools"])
+    if r["rows"] and r["rows"][-1]["jobs"] == 0:
+        still = [i for i, x in enumerate(r["rows"][-1]["running"]) if x]
+        if still:
+            add(_fail("nothing-running", f"every job is back but nodes {still} are running", cause="refused-submit"))
+    return out
 
 
 def _poke_after_merge(case):
